@@ -1,9 +1,15 @@
 """C05 tie + property oracle: results do not depend on neighbour algorithm,
 cache, threads or re-ordering.
 
-impl   : pysph.solver.application.Application.run(argv) on three small problems
+impl   : pysph.solver.application.Application.run(argv) on small problems
          written here (scratch build of /repo), one subprocess per configuration
-         (OMP_NUM_THREADS, the global compyle config and argparse are per process)
+         (OMP_NUM_THREADS, the global compyle config and argparse are per process):
+         wall / block / periodic (WCSPH, TVF: PEC-type integrators, 4 steps) and
+         gtvf (shipped GTVFScheme + GTVFIntegrator, 400 particles, periodic,
+         12 steps, --reorder-freq 2..6 so that several re-orders happen INSIDE
+         the time loop: GTVFIntegrator.one_timestep starts with
+         compute_accelerations(0, update_nnps=False), i.e. it queries the NNPS
+         exactly as the previous step and its re-order left it)
 oracle : the property statement itself, evaluated on the final particle
          arrays matched by gid:
            * every configuration == the plain baseline (--nnps ll, no cache, no
@@ -37,7 +43,14 @@ NNPS_ALL = ['ll', 'box', 'sh', 'esh', 'ci', 'sfc', 'tree', 'comp_tree',
 ZORDER_FAMILY = ('sfc', 'strat_sfc')
 NO_REORDER = ('sh', 'esh', 'strat_hash')   # no get_spatially_ordered_indices
 PROBLEMS = ('wall', 'block', 'periodic')
-MULTI_ARRAY = {'wall': True, 'block': False, 'periodic': False, 'tie': True}
+# 'gtvf': the shipped GTVFScheme/GTVFIntegrator, whose FIRST evaluation of a
+# step is compute_accelerations(0, update_nnps=False): the only shipped
+# integrator that queries the NNPS as the previous step (including its
+# re-order) left it.  Needs a multi-step history with re-orders inside it.
+HISTORY_PROBLEMS = ('gtvf',)
+GTVF_STEPS = 12
+MULTI_ARRAY = {'wall': True, 'block': False, 'periodic': False, 'tie': True,
+               'gtvf': False}
 HERE = os.path.abspath(__file__)
 
 
@@ -120,9 +133,36 @@ def make_arrays(problem, seed):
                                 rho=rho0 * (1.0 + _jitter(rng, n * n, 0.01)),
                                 u=u, v=v)
         arrs = [fl]
+    elif problem == 'gtvf':
+        # 2D doubly periodic box, Taylor-Green like velocity field, stored in
+        # a scrambled order (the order the user hands particles over in is
+        # arbitrary); fast enough that particles change cell between two
+        # re-orders a few steps apart
+        n = GTVF_N
+        dx = 1.0 / n
+        g = np.mgrid[0:n, 0:n].reshape(2, -1).astype(float) * dx + 0.5 * dx
+        perm = rng.permutation(n * n)
+        x = (g[0] + _jitter(rng, n * n, 0.1 * dx))[perm]
+        y = (g[1] + _jitter(rng, n * n, 0.1 * dx))[perm]
+        rho0 = 1.0
+        U = 1.0
+        b = 2 * np.pi
+        u = -U * np.cos(b * x) * np.sin(b * y)
+        v = U * np.sin(b * x) * np.cos(b * y)
+        p = -0.25 * U * U * (np.cos(2 * b * x) + np.cos(2 * b * y))
+        fl = get_particle_array(name='fluid', x=x, y=y,
+                                h=np.ones_like(x) * GTVF_HDX * dx,
+                                m=dx * dx * rho0 * (1.0 + _jitter(rng, n * n, 0.01)),
+                                rho=rho0 * np.ones_like(x), u=u, v=v, p=p)
+        arrs = [fl]
     else:
         raise SystemExit('unknown problem %r' % problem)
     return arrs
+
+
+GTVF_N = 20
+GTVF_HDX = 1.0
+GTVF_C0 = 10.0
 
 
 def assign_gids(arrs):
@@ -204,6 +244,23 @@ def make_app(problem, seed, outdir, assign_gid=True):
                 s = TVFScheme(['fluid'], [], dim=2, rho0=1.0, c0=c0, nu=0.01,
                               p0=c0 * c0, pb=c0 * c0, h0=dx)
                 s.configure_solver(dt=0.125 * dx / c0, tf=1.0)
+                return s
+
+            def create_domain(self):
+                from pysph.base.nnps import DomainManager
+                return DomainManager(xmin=0.0, xmax=1.0, ymin=0.0, ymax=1.0,
+                                     periodic_in_x=True, periodic_in_y=True)
+        elif problem == 'gtvf':
+            def create_scheme(self):
+                from pysph.base.kernels import QuinticSpline
+                from pysph.sph.wc.gtvf import GTVFScheme
+                dx = 1.0 / GTVF_N
+                h0 = GTVF_HDX * dx
+                c0 = GTVF_C0
+                s = GTVFScheme(fluids=['fluid'], solids=[], dim=2, rho0=1.0,
+                               c0=c0, nu=0.01, h0=h0, pref=c0 * c0)
+                s.configure_solver(kernel=QuinticSpline(dim=2),
+                                   dt=0.25 * h0 / (c0 + 1.0), tf=1.0)
                 return s
 
             def create_domain(self):
@@ -454,6 +511,7 @@ SCALES = {
     'block': dict(c0=35.0, rho0=1000.0, L=1.0, dx=0.1),
     'periodic': dict(c0=10.0, rho0=1.0, L=1.0, dx=1.0 / 16),
     'tie': dict(c0=1.0, rho0=1.0, L=1.0, dx=0.05),
+    'gtvf': dict(c0=GTVF_C0, rho0=1.0, L=1.0, dx=1.0 / GTVF_N),
 }
 
 
@@ -844,7 +902,28 @@ def quick_cfgs(rng):
          cfg('tie', 'sh', sort=True, cache=True, steps=1),
          cfg('tie', 'll', sort=True, cache=True, reorder=1, steps=1),
          cfg('tie', 'ci', openmp=True, threads=16, reorder=1, steps=1)]
-    return dedup(C + T)
+    return dedup(C + T + gtvf_cfgs(rng, 4))
+
+
+REORDERABLE = [nn for nn in NNPS_ALL if nn not in NO_REORDER]
+
+
+def gtvf_cfgs(rng, nrandom):
+    """multi-step history with re-orders INSIDE the time loop (freq < number
+    of steps), on the integrator that re-uses the NNPS across the step
+    boundary; compared by gid with the run that never re-orders"""
+    p, S = 'gtvf', GTVF_STEPS
+    C = [cfg(p, steps=S),                                   # baseline
+         cfg(p, 'll', sort=True, steps=S),                  # sorted reference
+         cfg(p, 'll', reorder=3, steps=S),                  # re-order only
+         cfg(p, 'tree', reorder=4, steps=S)]
+    for k in range(nrandom):
+        omp = k % 2 == 1
+        C.append(cfg(p, rng.choice(REORDERABLE), cache=rng.random() < 0.5,
+                     openmp=omp, threads=rng.choice([2, 3, 5, 8]) if omp else 1,
+                     reorder=rng.randint(2, GTVF_STEPS // 2),
+                     sort=rng.random() < 0.5, steps=S))
+    return C
 
 
 def dedup(C):
@@ -882,6 +961,14 @@ def thorough_cfgs(rng):
             C.append(cfg(p, nn, sort=True, assign_gid=False))
             C.append(cfg(p, nn, sort=False, assign_gid=False, cache=True,
                          openmp=True, threads=4))
+    for nn in REORDERABLE:
+        for ro in (1, 2, 5):
+            for srt in (False, True):
+                omp = rng.random() < 0.5
+                C.append(cfg('gtvf', nn, cache=rng.random() < 0.5, openmp=omp,
+                             threads=rng.randint(2, 16) if omp else 1,
+                             reorder=ro, sort=srt, steps=GTVF_STEPS))
+    C += gtvf_cfgs(rng, 12)
     T = []
     for nn in NNPS_ALL:
         if nn in ZORDER_FAMILY:
@@ -913,6 +1000,14 @@ def search_cfgs(rng, aimed=()):
             C.append(cfg(p, rng.choice(NNPS_ALL), rng.random() < 0.5, omp,
                          rng.randint(2, 16) if omp else 1,
                          rng.choice([None, 1, 2]), rng.random() < 0.5))
+    # re-orders inside a longer history, integrator that re-uses the NNPS
+    # across the step boundary
+    for t in aimed:
+        if t['reorder'] and t['nnps'] in REORDERABLE:
+            for ro in (2, 3):
+                C.append(cfg('gtvf', t['nnps'], t['cache'], t['openmp'],
+                             t['threads'], ro, t['sort'], steps=GTVF_STEPS))
+    C += gtvf_cfgs(rng, 8)
     return dedup(C)
 
 
